@@ -392,7 +392,8 @@ func c10Build(c *fw.Case) c10Case {
 	case "marker-select":
 		// the back-navigation marker selected as a value and carried through
 		// the stages that fingerprint, compare or sort whole rows
-		inner := gen.Pick(c.R, []string{"(SELECT `<-` FROM dual)", "(SELECT `<-` AS up FROM dual)", "(SELECT `<-` AS up, e FROM arr)", "ARRAY(`<-`)", "`<-`"})
+		inner := gen.Pick(c.R, []string{"(SELECT `<-` FROM dual)", "(SELECT `<-` AS up FROM dual)", "(SELECT `<-` AS up, e FROM arr)", "ARRAY(`<-`)", "`<-`",
+			"(SELECT (SELECT `<-.<-` AS up FROM dual) AS s2 FROM dual)", "(SELECT `'<-'` AS up FROM dual)", "(SELECT `<-<-` AS up FROM dual)", "(SELECT `<-.'<-'` AS up FROM dual)", "(SELECT `<-`, `<-.<-` AS g FROM dual)"})
 		cs.sql = gen.Pick(c.R, []string{
 			"WITH a AS (SELECT " + inner + " AS x FROM t1) SELECT DISTINCT * FROM a",
 			"WITH a AS (SELECT rid, " + inner + " AS x FROM t1), b AS (SELECT " + inner + " AS y, x FROM a) SELECT DISTINCT * FROM b",
